@@ -79,6 +79,9 @@ type JSCall struct {
 	Script string    `json:"script"`
 	Probes []string  `json:"probes,omitempty"` // global names the script inspects ("*" = all enumerable globals)
 	Args   []JSArg   `json:"args,omitempty"`
+	// BadName k > 0: the NAME of the k-th name/value pair is passed as a non-string (the number 7): the call must fail, and
+	// the pairs in front of it must not reach any later call
+	BadName int `json:"bad_name,omitempty"`
 }
 
 // JSThread is what one goroutine does.
@@ -264,6 +267,9 @@ func DrawJSThread(t *rapid.T, label string, maxCalls int) JSThread {
 			c.Ctx = true // JavaScriptWithContext with a nil node behaves like JavaScript
 		}
 		c.Script, c.Probes = DrawJSScript(t, l+"s", jsNamesOf(c.Args), c.Ctx && c.Node >= 0)
+		if len(c.Args) > 0 && rapid.IntRange(0, 7).Draw(t, l+"badName") == 0 {
+			c.BadName = rapid.IntRange(1, len(c.Args)).Draw(t, l+"badNameAt")
+		}
 		th.Calls = append(th.Calls, c)
 	}
 	return th
